@@ -83,7 +83,7 @@ def pop(s_old, s_new, extra):
 def same_side(a, b):
     return [a.mem == b.mem, a.nQ == b.nQ, a.P == b.P, a.nP == b.nP, a.idx == b.idx, a.fill == b.fill, a.cur == b.cur, a.tmp == b.tmp]
 
-def check(name, hyps, goals, timeout=60000):
+def check(name, hyps, goals, timeout=20000):
     res = []
     for i, g in enumerate(goals):
         s = z3.Solver(); s.set('timeout', timeout)
@@ -133,3 +133,43 @@ for pop_b, pop_s in itertools.product([False, True], repeat=2):
 
 
 
+
+# ---------------- exit => postconditions (before fills are applied: final volume = vol - fill)
+print("--- exit obligations")
+def remainingB(st, x): return z3.And(mem0['B'][x], st.b.fill[x] < vol(x))
+def remainingS(st, x): return z3.And(mem0['S'][x], st.s.fill[x] < vol(x))
+def E6(st):
+    x, y = z3.Ints('x y')
+    return [z3.ForAll([x, y], z3.Implies(z3.And(mem0['B'][x], mem0['B'][y], lt(y, x, True), st.b.fill[x] > 0), st.b.fill[y] == vol(y))),
+            z3.ForAll([x, y], z3.Implies(z3.And(mem0['S'][x], mem0['S'][y], lt(y, x, False), st.s.fill[x] > 0), st.s.fill[y] == vol(y)))]
+def E7(st):
+    # if bb, bs are best remaining orders on each side and one is limit => both limit and bid<ask
+    bb, bs, x = z3.Ints('bb bs x')
+    bestB = z3.And(remainingB(st, bb), z3.ForAll([x], z3.Implies(z3.And(remainingB(st, x), x != bb), lt(bb, x, True))))
+    bestS = z3.And(remainingS(st, bs), z3.ForAll([x], z3.Implies(z3.And(remainingS(st, x), x != bs), lt(bs, x, False))))
+    return [z3.Implies(z3.And(bestB, bestS, z3.Or(isLim(bb), isLim(bs))), z3.And(isLim(bb), isLim(bs), price(bb) < price(bs)))]
+x = z3.Int('x')
+# Exit A: at loop head, buy_tmp == 0 and buy queue empty
+hypsA = list(H) + [st0.b.tmp == 0, st0.b.nQ == 0, z3.ForAll([x], z3.Not(st0.b.mem[x]))]
+check('exit A (buys exhausted)', hypsA, E6(st0) + E7(st0))
+# Exit B: buy popped or not -> st1 ; sell_tmp == 0 and sell queue empty
+for pop_b in (False, True):
+    hyps = list(H)
+    if pop_b: hyps += [st0.b.tmp == 0] + pop(st0.b, st1.b, None)
+    else: hyps += [st0.b.tmp != 0] + same_side(st0.b, st1.b)
+    hyps += same_side(st0.s, st1.s)
+    hyps += [st1.s.tmp == 0, st1.s.nQ == 0, z3.ForAll([x], z3.Not(st1.s.mem[x]))]
+    check(f'exit B (sells exhausted) pop_b={pop_b}', hyps, E6(st1) + E7(st1))
+# Exit C: non-crossing limit pair after pops
+for pop_b, pop_s in itertools.product([False, True], repeat=2):
+    if not pop_b and not pop_s: continue
+    hyps = list(H)
+    if pop_b: hyps += [st0.b.tmp == 0] + pop(st0.b, st1.b, None)
+    else: hyps += [st0.b.tmp != 0] + same_side(st0.b, st1.b)
+    hyps += same_side(st0.s, st1.s)
+    if pop_s: hyps += [st1.s.tmp == 0] + pop(st1.s, st2.s, None)
+    else: hyps += [st1.s.tmp != 0] + same_side(st1.s, st2.s)
+    hyps += same_side(st1.b, st2.b)
+    b, s = st2.b.cur, st2.s.cur
+    hyps.append(z3.And(isLim(b), isLim(s), price(b) < price(s)))
+    check(f'exit C (non-crossing) pop_b={pop_b} pop_s={pop_s}', hyps, E6(st2) + E7(st2))
